@@ -80,10 +80,17 @@ def scalar(rng: random.Random, dom: str) -> Any:
     return rng.choice(STRINGS)
 
 
-def value(rng: random.Random, dom: str, depth: int = 3, size: int | None = None) -> Any:
+NO_SETS = {"on": False}  # set by callers that need a canonical serialised form
+
+
+def value(rng: random.Random, dom: str, depth: int = 3, size: int | None = None, sets: bool = True) -> Any:
     """A value of the domain; `size` pads it with a long string so that the
     serialized form straddles the externalisation threshold."""
-    v = _value(rng, dom, depth)
+    NO_SETS["on"] = not sets
+    try:
+        v = _value(rng, dom, depth)
+    finally:
+        NO_SETS["on"] = False
     if size:
         pad = "x" * size
         v = {"pad": pad, "v": v} if rng.random() < 0.5 else [pad, v]
@@ -106,6 +113,9 @@ def _value(rng: random.Random, dom: str, depth: int) -> Any:
     if r < 0.95 and dom == "py":
         # non-str dict keys: pickle only (jsonpickle's default encoding turns keys into strings)
         return {i: _value(rng, dom, depth - 1) for i in range(n)}
+    if NO_SETS["on"]:
+        # equal sets may iterate (and therefore serialise) in different orders: not canonical
+        return tuple(rng.choice(INTS) for _ in range(n))
     return frozenset(rng.choice(INTS) for _ in range(n))
 
 
